@@ -431,7 +431,8 @@ fn family(parser: &str) -> &str {
 /// parser reached it; allocation-size panics are raised below many call sites and are keyed by the
 /// class of the declared length instead
 fn panic_sig(p: &PanicRec, input: &[u8]) -> String {
-    if p.msg.contains("capacity overflow") && risky(input) {
+    let _ = input;
+    if p.msg.contains("capacity overflow") {
         // keyed by the code that asked for the allocation: a new reader that pre-sizes from the
         // declared length is a new signature
         format!("alloc/capacity-overflow-panic-on-huge-declared-length@{}", p.via)
@@ -446,7 +447,13 @@ fn panic_sig(p: &PanicRec, input: &[u8]) -> String {
 /// inputs that may legitimately kill the process (an allocation the host refuses): a declared
 /// 4- or 8-byte string / array / map length of at least 2^31
 fn risky(input: &[u8]) -> bool {
-    // walk the heads as a decoder would meet them (strings are skipped over, containers entered)
+    risky_depth(input, 0)
+}
+
+fn risky_depth(input: &[u8], depth: u32) -> bool {
+    // walk the heads as a decoder would meet them (strings are skipped over, containers entered; the
+    // content of a byte string is walked too: inline datums, script references and Byron address payloads
+    // are CBOR inside a byte string that a second decoder reads)
     let mut i = 0usize;
     let mut steps = 0;
     while i < input.len() && steps < 100_000 {
@@ -499,6 +506,9 @@ fn risky(input: &[u8]) -> bool {
                 let rem = (input.len() - i - hl) as u64;
                 if arg > rem {
                     return false; // truncated string of moderate size: harmless
+                }
+                if major == 2 && arg >= 5 && depth < 4 && risky_depth(&input[i + hl..i + hl + arg as usize], depth + 1) {
+                    return true;
                 }
                 i += hl + arg as usize;
             }
